@@ -107,6 +107,107 @@ def replay_case(w):
     return False, None, None
 
 
+def h_mask_object(sf):
+    """the mask handling of load_globals: a Region OBJECT handed in as `mask` is the region the finder filters with -- the same
+    object, or a copy at the SAME resolution holding its pixels"""
+    from symx import slicer
+
+    def h(c):
+        fac, text = slicer.slice_function(I.F, 'load_globals', targets=['self.global_data.region'], params=['self', 'mask'], cls='SourceFinder')
+
+        class FakeRegion:
+            made = []
+
+            def __init__(self, maxdepth=11):
+                self.maxdepth = maxdepth
+                self.got = []
+                FakeRegion.made.append(self)
+
+            def union(self, other, *a, **k):
+                self.got.append(other)
+
+            @staticmethod
+            def load(fn):
+                return ('loaded', fn)
+        FakeRegion.made = []
+        D = 13
+        mask = FakeRegion(D)
+        FakeRegion.made = []
+
+        class GD:
+            region = None
+
+        class Self:
+            global_data = GD()
+            log = loader.NullLog()
+        import os as _os
+        f = fac(dict(core.BUILTINS, Region=FakeRegion, os=_os, isinstance=isinstance))
+        f(Self(), mask)
+        reg = Self.global_data.region
+        same = reg is mask
+        copy_ok = isinstance(reg, FakeRegion) and reg.maxdepth == D and reg.got == [mask]
+        c.oblige('load_globals:a Region object given as mask is used as is, or copied at its own depth', z3.BoolVal(bool(same or copy_ok)),
+                 info='region maxdepth %s for a mask of depth %d' % (getattr(reg, 'maxdepth', None), D))
+        return dict(slice=text[:400])
+    return h
+
+
+def mask_object_oracle():
+    """real find_sources_in_image with a depth-13 Region object as mask: an island outside the region but inside the depth-11
+    cell that the region partly covers must not appear"""
+    import logging
+    import os
+    import shutil
+    import tempfile
+    import healpy as hp
+    from astropy.io import fits
+    from astropy.wcs import WCS
+    sfm = loader.real('source_finder')
+    regions = loader.real('regions')
+    d = tempfile.mkdtemp(prefix='c11m_', dir='/var/tmp')
+    try:
+        N = 64
+        y, x = real_np.mgrid[0:N, 0:N].astype(float)
+        g = lambda a, r0, c0: a * real_np.exp(-((y - r0) ** 2 + (x - c0) ** 2) / (2 * 1.3 ** 2))
+        cents = [(20.2, 20.3), (20.4, 27.1), (44.3, 40.2), (44.1, 47.3)]
+        img = sum(g(30.0, r0, c0) for r0, c0 in cents)
+        hdr = fits.Header()
+        hdr['CTYPE1'], hdr['CTYPE2'] = 'RA---SIN', 'DEC--SIN'
+        hdr['CRVAL1'], hdr['CRVAL2'] = 150.0, -27.0
+        hdr['CRPIX1'] = hdr['CRPIX2'] = N / 2
+        hdr['CDELT1'], hdr['CDELT2'] = -10.0 / 3600, 10.0 / 3600
+        hdr['BMAJ'] = hdr['BMIN'] = 30.0 / 3600
+        hdr['BPA'] = 0.0
+        fn = os.path.join(d, 'm.fits')
+        fits.PrimaryHDU(img, header=hdr).writeto(fn)
+        w = WCS(hdr, naxis=2)
+        depth = 13
+        reg = regions.Region(maxdepth=depth)
+        keep = [cents[0], cents[2]]
+        cells = set()
+        for (r0, c0) in keep:
+            rr, cc = real_np.mgrid[int(r0) - 2:int(r0) + 4, int(c0) - 2:int(c0) + 4]
+            sky = w.all_pix2world(real_np.column_stack([cc.ravel(), rr.ravel()]), 0)
+            cells |= set(int(p) for p in hp.ang2pix(2 ** depth, real_np.radians(90 - sky[:, 1]), real_np.radians(sky[:, 0]), nest=True))
+        reg.add_pixels(sorted(cells), depth)
+        f = sfm.SourceFinder(log=logging.getLogger('c11'))
+        srcs = f.find_sources_in_image(fn, rms=1.0, bkg=0.0, cores=1, innerclip=10, outerclip=8, mask=reg)
+        want = 0
+        for (r0, c0) in cents:
+            rr, cc = real_np.where(img > 8.0)
+            mine = [(a, b) for a, b in zip(rr, cc) if abs(a - r0) < 6 and abs(b - c0) < 4]
+            sky = w.all_pix2world([[b, a] for a, b in mine], 0)
+            pix = hp.ang2pix(2 ** depth, real_np.radians(90 - sky[:, 1]), real_np.radians(sky[:, 0]), nest=True)
+            want += int(any(int(p) in cells for p in pix))
+        if len(srcs) != want:
+            return True, 'mask-object-resolution', 'depth-13 Region object as mask: %d components reported, %d islands have a pixel centre in the region (4 sources, 2 of them only inside the region\'s depth-11 parent cells)' % (len(srcs), want)
+        return False, None, None
+    except Exception as e:
+        return True, 'raises-%s' % type(e).__name__, repr(e)[:300]
+    finally:
+        shutil.rmtree(d, ignore_errors=True)
+
+
 def scan_region_reads():
     """syntactic: which functions of source_finder.py read a `.region` attribute / `region` variable"""
     src = loader.source(I.F)
@@ -158,6 +259,24 @@ def run(rep):
                 rep.sample(dict(grid='%dx%d' % (R, C), out=r['out'], obligations=[(o['name'].split(':')[-1], o['result']) for o in r['obligations']]))
                 shown = True
     rep.end_kernel()
+    rep.kernel('K-mask-object', functions=[I.F + ':SourceFinder.load_globals'], bounds='a Region object of depth 13 given as mask',
+               stubs=['Region -> recording class'], assumes=['slice: statements assigning self.global_data.region (with their enclosing ifs)'])
+    try:
+        st, res = explore(h_mask_object(sf))
+        rep.stats(st)
+        for r in res:
+            for ob in r['obligations']:
+                rep.count(ob['result'], ob['name'])
+                if ob['result'] == 'sat':
+                    bad, cls, detail = mask_object_oracle()
+                    rep.finding('C11/K-mask-object/%s' % (cls or ob['name'].split(':')[-1]), dict(kind='mask-object'), detail or ob['name'], reproduced=bad)
+    except Exception as e:
+        rep.inconc('K-mask-object: %r' % (e,))
+    bad, cls, detail = mask_object_oracle()
+    rep.validated_runs(1)
+    if bad:
+        rep.finding('C11/K-mask-object/%s' % cls, dict(kind='mask-object'), detail)
+    rep.end_kernel()
     rep.kernel('K-scan', functions=[I.F], bounds='syntactic scan of source_finder.py for reads of the region', assumes=['fitting functions never read the region'])
     reads = scan_region_reads()
     bad = sorted(set(reads) & FIT_FUNCS)
@@ -172,6 +291,9 @@ def run(rep):
 
 
 def replay(w):
+    if w['witness'].get('kind') == 'mask-object':
+        bad, cls, detail = mask_object_oracle()
+        return bad, '%s: %s' % (cls, detail)
     if w['witness'].get('kind') == 'membership':
         from checks import C08
         bad, cls, detail = C08.replay_case(w['witness'])
